@@ -16,6 +16,7 @@ import (
 	"verif/exact"
 	"verif/gen"
 	"verif/model"
+	"verif/props/shared"
 	"verif/run"
 )
 
@@ -27,7 +28,7 @@ func init() {
 			"Output is re-parsed with encoding/json as the syntax/shape referee and the decoded value is compared with the harness's model of the forced losses. non-trivial = geometry with >= 2 nodes, Z/M, or an empty member; grammar documents and features always; distinct by WKB / document text",
 		Assumptions:      []string{"forced losses modelled: M dropped; empty Points deleted from MultiPoints; Z kept iff the document contains at least one position; everything else bit-identical", "grammar documents with nulls or missing members may decode or fail; only position-length and type rules are judged strictly"},
 		MinNontrivial:    500,
-		RequiredMonitors: []string{"syntax", "shape", "roundtrip-image", "concrete-type", "grammar-doc", "feature", "feature-collection"},
+		RequiredMonitors: []string{"syntax", "shape", "roundtrip-image", "concrete-type", "grammar-doc", "feature", "feature-collection", "concrete-entry"},
 		Run:              runAll,
 	})
 }
@@ -181,6 +182,7 @@ func geomCase(k *run.K) {
 	if k.Lib("nopanic", func() { b, err = x.MarshalJSON() }) {
 		return
 	}
+	shared.ConcreteAgree(k, x, "concrete-entry", []shared.Call{{Method: "MarshalJSON"}}, nil)
 	k.In("geojson", string(b))
 	if !k.Check("syntax", err == nil && json.Valid(b), "MarshalJSON err=%v valid=%v: %s", err, json.Valid(b), clip(string(b))) {
 		return
